@@ -173,7 +173,10 @@ func NativeReplay(cfg *CheckConfig, cexPaths []string, race bool, timeoutSec int
 	// one process per counterexample so that a hang or crash is attributed
 	var logs strings.Builder
 	for _, p := range cexPaths {
-		args := []string{"test", "-vet=off", "-count=1", "-overlay", ovPath, "-run", "^TestVerifReplay$", "-timeout", fmt.Sprintf("%ds", timeoutSec)}
+		if ap, err := filepath.Abs(p); err == nil {
+			p = ap
+		}
+		args := []string{"test", "-v", "-vet=off", "-count=1", "-overlay", ovPath, "-run", "^TestVerifReplay$", "-timeout", fmt.Sprintf("%ds", timeoutSec)}
 		if race {
 			args = append(args, "-race")
 		}
